@@ -59,6 +59,89 @@ type Path struct {
 	nAsserts int
 	curInstr ssa.Instruction
 	ended    bool
+	// confinement monitor: cells and maps that must not be written any more
+	frozenCells   map[*Value]string
+	frozenMaps    map[*Map]string
+	globalsFrozen bool
+}
+
+// freeze marks everything reachable from v as read-only (what names the owner).
+func (p *Path) freeze(v Value, what string, seen map[interface{}]bool) {
+	switch x := v.(type) {
+	case *Value:
+		if x == nil || seen[x] {
+			return
+		}
+		seen[x] = true
+		p.frozenCells[x] = what
+		p.freezeInner(x, what, seen)
+	case Iface:
+		p.freeze(x.V, what, seen)
+	case Slice:
+		full := x[:cap(x)]
+		for i := range full {
+			c := &full[i]
+			if !seen[c] {
+				seen[c] = true
+				p.frozenCells[c] = what
+				p.freezeInner(c, what, seen)
+			}
+		}
+	case *Map:
+		if x == nil || seen[x] {
+			return
+		}
+		seen[x] = true
+		p.frozenMaps[x] = what
+		for i := range x.vals {
+			p.freeze(x.vals[i], what, seen)
+			p.freeze(x.keys[i], what, seen)
+		}
+	case Struct:
+		for i := range x {
+			c := &x[i]
+			if !seen[c] {
+				seen[c] = true
+				p.frozenCells[c] = what
+				p.freezeInner(c, what, seen)
+			}
+		}
+	case Array:
+		for i := range x {
+			c := &x[i]
+			if !seen[c] {
+				seen[c] = true
+				p.frozenCells[c] = what
+				p.freezeInner(c, what, seen)
+			}
+		}
+	}
+	// closures are not traversed: their captured cells belong to the plugin or
+	// harness that created them, not to the frozen object
+}
+
+func (p *Path) freezeInner(c *Value, what string, seen map[interface{}]bool) {
+	p.freeze(*c, what, seen)
+}
+
+func (p *Path) checkWrite(c *Value) {
+	if len(p.frozenCells) == 0 {
+		return
+	}
+	if what, ok := p.frozenCells[c]; ok {
+		p.w.recordViolation(p, "write-to-shared-state", "confinement", "store into "+what, p.model)
+		delete(p.frozenCells, c)
+	}
+}
+
+func (p *Path) checkMapWrite(m *Map) {
+	if len(p.frozenMaps) == 0 {
+		return
+	}
+	if what, ok := p.frozenMaps[m]; ok {
+		p.w.recordViolation(p, "write-to-shared-state", "confinement", "map update of "+what, p.model)
+		delete(p.frozenMaps, m)
+	}
 }
 
 func (p *Path) st() *Store { return p.w.st }
